@@ -442,6 +442,24 @@ def run(ck, ctx):
                 ck.ob("R09.4", f"the kernel's {p_} values are the stage's {src} values (selected, not recomputed)",
                       vals == [src], site_, "EAS.__call__", f"value flow from {vals}",
                       construct=f"EAS.__call__: source of the kernel's {p_}")
+        # every kernel invocation below the stage is handed the stage's own cloud callable: the kernel evaluates it at
+        # the event's coordinates (R09.6).  A stand-in that returns a value looked up elsewhere - for another event of the
+        # partition, say - gives the event the cloud top of another place.
+        n_k = 0
+        for run_ in E.kernel_runs:
+            ent = getattr(run_[2], "entry", run_[2])
+            kparams = [a.arg for a in run_[0].node.args.args]
+            cf = ent.get(kparams[6]) if len(kparams) > 6 else ent.get("cloudf")
+            n_k += 1
+            okc = cf is E.cloudf
+            if not okc and cf is not None and (cf.op == "Elem" and isinstance(cf.attr, tuple) and cf.attr[:1] == ("star",)
+                                               or cf.op in ("Unknown", "Starred")):
+                okc = None          # bound through *args of unknown length: which argument it is cannot be told
+            ck.ob("R09.4", "the kernel is handed the stage's cloud callable itself (evaluated there at the event's own "
+                  "coordinates)", okc, cf if cf is not None else run_[3], "CphotAng.__call__",
+                  J.g.show(cf, 3) if cf is not None else "no cloud callable", construct="CphotAng.__call__: cloud "
+                  "callable replaced on the way to the kernel")
+        ck.floor("R09.4", n_k, 1, "kernel invocations below the optical stage")
     ck.guard(r094c, "R09.4 (stage)")
 
     # ---------------------------------------------------------------- R09.6 / R09.7 kernel
